@@ -535,9 +535,11 @@ func (pf Producer[T]) GenerateParallel(
 					if opts.CanContinueOnError(err) {
 						return zero, ErrIteratorSkip
 					}
-					if !errors.Is(err, io.EOF) {
+					if !errors.Is(err, io.EOF) || errors.Is(err, ErrRecoveredPanic) {
 						// a failure (rather than the end of the
-						// input) stops the other workers too.
+						// input) stops the other workers too; a
+						// panic is a failure even when its value
+						// wraps io.EOF.
 						cancel()
 					}
 
